@@ -340,9 +340,12 @@ pub fn exec(func: &str, a: &mut Args) -> String {
                 }
             }
         }
-        _ => "nofn".into(),
+        _ => ext::exec(func, a),
     }
 }
+
+#[path = "c08_ext.rs"]
+mod ext;
 
 // ---------------------------------------------------------------- generators
 
@@ -663,6 +666,8 @@ pub fn gen(r: &mut Rng, thorough: bool) -> Vec<(String, String)> {
     }
     let ndeep = if thorough { 4 } else { 1 };
     for it in 0..ndeep { v.push(deep_chain_history(r, it % 2 == 0)); }
+    // round fu3: check_topology / accessors / scaled / early exit (appended: the stream above is unchanged)
+    v.extend(ext::gen(r, thorough));
     v
 }
 
